@@ -1,7 +1,12 @@
 // Conformance driver for the rolling log file policies celma::log::files::{Counted, MaxSize, Simple}
 // (property C15).  Works on REAL files in a scratch directory.
-//   logrolling_driver --dir D --script FILE            replay of TLC-generated action sequences
-//   logrolling_driver --dir D --random --seed S --cases K --ops M
+//   logrolling_driver --dir D --via V --script FILE            replay of TLC-generated action sequences
+//   logrolling_driver --dir D --via V --random --seed S --cases K --ops M
+// V = policy  : the policy objects are called directly (open(), writeMessage())
+//     handler : a message travels Logging::log() -> Log -> files::Handler<Policy>::message() -> stream formatter
+//               -> policy -> file; open = new Handler (its constructor opens the policy) attached to a log of a
+//               fresh Logging singleton, close/restart = the singleton with the Handler is destroyed
+//     alt     : executions alternate between the two (even = policy, odd = handler; --phase 1 swaps)
 // Output: ndjson trace on stdout (event format: specs/logrolling/TraceLogRolling.tla).
 // The driver only records: which call was made, what the rename seam saw, and the projection
 // (content of every generation file read back from disk).  It never computes an expected result.
@@ -21,9 +26,10 @@
 #include "celma/log/files/counted.hpp"
 #include "celma/log/files/max_size.hpp"
 #include "celma/log/files/simple.hpp"
-// LogMsg's constructor lives in library/log/detail, whose other sources pull in the whole logging
-// framework (filters, formatters, argument handler).  Only this one translation unit is needed:
-#include "library/log/detail/log_msg.cpp"
+#include "celma/log/detail/i_format_stream.hpp"
+#include "celma/log/detail/log.hpp"
+#include "celma/log/files/handler.hpp"
+#include "celma/log/logging.hpp"
 
 namespace clf = celma::log::files;
 namespace clfn = celma::log::filename;
@@ -154,17 +160,40 @@ public:
 static Seam* gSeam = nullptr;
 
 // ---------------------------------------------------------------- one execution
+// stream formatter that writes the message text only: one line on disk = the text handed to Logging::log()
+struct TextOnlyFormat final : celma::log::detail::IFormatStream {
+   void format(std::ostream& out, const celma::log::detail::LogMsg& msg) const override { out << msg.getText(); }
+};
+
 struct Session {
    std::string kind = "counted";
    long limit = 1, G = 1;
    long nextId = 1;
-   std::unique_ptr<clf::PolicyBase> pol;
+   bool viaHandler = false;
+   bool isOpen = false;
+   std::unique_ptr<clf::PolicyBase> pol;     // via policy: the object under test
+   clf::PolicyBase* rawPol = nullptr;        // the policy in use (via handler: owned by the Handler)
+   celma::log::id_t logId = 0;
 
-   void reset(const std::string& k, long lim, long g) {
+   void drop() {                             // the "process" ends: every object is destroyed
       pol.reset();
+      if (viaHandler) {
+         // removing the destination destroys the Handler and with it the policy (file closed); the singleton is
+         // reset afterwards (Logging itself does not delete its Log objects)
+         if (logId != 0) {
+            try { celma::log::Logging::instance().getLog(logId)->removeDestination("file"); } catch (const std::exception&) {}
+         }
+         celma::log::Logging::reset();
+         logId = 0;
+      }
+      rawPol = nullptr;
+      isOpen = false;
+   }
+   void reset(const std::string& k, long lim, long g, bool handler) {
+      drop();
       cleanDir();
-      kind = k; limit = lim; G = g; nextId = 1;
-      vj::Line().str("e", "Reset").str("kind", kind).num("limit", limit).num("G", G).emit();
+      kind = k; limit = lim; G = g; nextId = 1; viaHandler = handler;
+      vj::Line().str("e", "Reset").str("kind", kind).num("limit", limit).num("G", G).str("via", handler ? "handler" : "policy").emit();
    }
    clf::PolicyBase* make() const {
       clfn::Definition def;
@@ -177,8 +206,17 @@ struct Session {
       if (kind == "counted") return new clf::Counted(def, static_cast<size_t>(limit), static_cast<int>(G));
       return new clf::MaxSize(def, static_cast<size_t>(limit), static_cast<int>(G));
    }
+   // the Handler takes ownership of the policy and opens it in its constructor
+   celma::log::detail::ILogDest* makeHandler(clf::PolicyBase* p) const {
+      celma::log::detail::ILogDest* h;
+      if (kind == "simple") h = new clf::Handler<clf::Simple>(static_cast<clf::Simple*>(p));
+      else if (kind == "counted") h = new clf::Handler<clf::Counted>(static_cast<clf::Counted*>(p));
+      else h = new clf::Handler<clf::MaxSize>(static_cast<clf::MaxSize*>(p));
+      h->setFormatter(new TextOnlyFormat());
+      return h;
+   }
    // generation number in logFileName() (the file the policy says it is writing to)
-   long curGen() const { return pol ? genOfPath(pol->logFileName()) : -1; }
+   long curGen() const { return rawPol ? genOfPath(rawPol->logFileName()) : -1; }
    // constructor contract: a definition without generation number is refused by Counted/MaxSize, an empty one by all
    void badDef(const char* what) {
       clfn::Definition def;
@@ -195,24 +233,37 @@ struct Session {
    }
    // returns false when the injected crash happened
    bool open(long crashAfter) {
-      if (pol) return true;
+      if (isOpen) return true;
       vj::Line().str("e", "OpenBegin").emit();
       gSeam->renames = 0;
       gSeam->crashAfter = crashAfter;
       const char* res = "ok";
       try {
-         pol.reset(make());      // a NEW policy object: nothing is remembered from before the restart
-         pol->open();
+         // NEW objects: nothing is remembered from before the restart
+         if (viaHandler) {
+            celma::log::Logging::reset();
+            logId = celma::log::Logging::instance().findCreateLog("c15");
+            celma::log::detail::Log* l = celma::log::Logging::instance().getLog(logId);
+            rawPol = make();
+            celma::log::detail::ILogDest* h = nullptr;
+            try { h = makeHandler(rawPol); } catch (...) { rawPol = nullptr; throw; }   // the Handler deleted the policy
+            l->addDestination("file", h);
+         } else {
+            pol.reset(make());
+            rawPol = pol.get();
+            pol->open();
+         }
+         isOpen = true;
       } catch (const CrashInjected&) {
          crashed();
          return false;
-      } catch (const std::exception&) { res = "exception"; }
+      } catch (const std::exception&) { res = "exception"; isOpen = !viaHandler; }
       gSeam->crashAfter = 0;
       vj::Line().str("e", "OpenEnd").str("res", res).num("cur", curGen()).raw("log", projection()).emit();
       return true;
    }
    bool write(long len, long crashAfter) {
-      if (!pol) return true;
+      if (!isOpen) return true;
       const long id = nextId++;
       std::string text;
       if (!makeText(id, len, text)) { fprintf(stderr, "message id %ld does not fit into %ld bytes\n", id, len); fflush(stdout); _exit(3); }
@@ -222,7 +273,11 @@ struct Session {
       const char* res = "ok";
       celma::log::detail::LogMsg lm("logrolling_driver.cpp", "write", 1);
       try {
-         pol->writeMessage(lm, text);
+         if (viaHandler) {
+            lm.setText(text);
+            if (id & 1) celma::log::Logging::instance().log(logId, lm);
+            else celma::log::Logging::instance().log("c15", lm);
+         } else pol->writeMessage(lm, text);
       } catch (const CrashInjected&) {
          crashed();
          return false;
@@ -233,12 +288,12 @@ struct Session {
    }
    void crashed() {
       gSeam->crashAfter = 0;
-      pol.reset();               // the log file is closed while generations are rolled: nothing is buffered
+      drop();                    // the log file is closed while generations are rolled: nothing is buffered
       vj::Line().str("e", "Kill").raw("log", projection()).emit();
    }
    void close() {
-      if (!pol) return;
-      pol.reset();
+      if (!isOpen) return;
+      drop();
       vj::Line().str("e", "Close").raw("log", projection()).emit();
    }
 };
@@ -264,6 +319,9 @@ int main(int argc, char** argv) {
    gSeam = new Seam();
    celma::common::FileOperations::setFuncImpl(gSeam);    // takes ownership
    Session s;
+   const std::string via = vh::arg(argc, argv, "--via", "policy");
+   long execNo = vh::argnum(argc, argv, "--phase", 0) & 1;     // alt: which execution is the first one via handler
+   auto nextVia = [&]() { const bool h = via == "handler" || (via == "alt" && (execNo & 1)); ++execNo; return h; };
    const char* script = vh::arg(argc, argv, "--script");
    if (script != nullptr) {
       FILE* f = fopen(script, "r");
@@ -277,7 +335,7 @@ int main(int argc, char** argv) {
          const std::string n = a["n"].str();
          if (n == "Reset") {
             // the configuration is carried by the first action after the Reset
-            if (i + 1 < acts.size()) s.reset(acts[i + 1]["kind"].str(), acts[i + 1]["limit"].num(1), acts[i + 1]["G"].num(1));
+            if (i + 1 < acts.size()) s.reset(acts[i + 1]["kind"].str(), acts[i + 1]["limit"].num(1), acts[i + 1]["G"].num(1), nextVia());
          } else if (n == "OpenBegin") s.open(crashPoint(acts, i));
          else if (n == "WriteBegin") s.write(a["len"].num(1), crashPoint(acts, i));
          else if (n == "Close") s.close();
@@ -294,14 +352,14 @@ int main(int argc, char** argv) {
          long limit = 0, G = 1;
          if (kind == "counted") { limit = rng.chance(1, 2) ? rng.range(1, 6) : rng.range(7, 50); G = rng.range(1, 5); }
          else if (kind == "maxsize") { limit = rng.chance(1, 2) ? rng.range(4, 64) : rng.range(65, 2048); G = rng.range(1, 5); }
-         s.reset(kind, limit, G);
+         s.reset(kind, limit, G, nextVia());
          s.badDef("nogen");
          s.badDef("empty");
          s.open(0);
          // typical message length: a fraction of the byte limit, so that generations hold 1..many messages
          const long typical = kind == "maxsize" ? std::max<long>(1, limit / rng.range(2, 12)) : rng.range(1, 40);
          for (long o = 0; o < ops; ++o) {
-            if (!s.pol) { s.open(crashes && rng.chance(1, 12) ? rng.range(1, G) : 0); continue; }
+            if (!s.isOpen) { s.open(crashes && rng.chance(1, 12) ? rng.range(1, G) : 0); continue; }
             if (rng.chance(1, 9)) { s.close(); continue; }
             long len;
             switch (rng.below(8)) {
@@ -318,7 +376,7 @@ int main(int argc, char** argv) {
          s.close();
       }
    }
-   s.pol.reset();
+   s.drop();
    cleanDir();
    ::rmdir(gDir.c_str());
    vh::end();
